@@ -7,6 +7,7 @@
 import Fx.OutputOk
 import Fx.Lemmas.Emit
 import Fx.Render
+import Fx.Props.C13
 namespace Fx.C07
 open Fx
 
@@ -91,5 +92,51 @@ theorem C07_typedef_newtype (a : Ast) (td : Typedef) (h : (td.target == td.alias
   split
   · exact ⟨_, _, _, rfl⟩
   · split <;> exact ⟨_, _, _, rfl⟩
+
+/-! ### rustc's rule "a type parameter is declared iff it is used" (E0392 / E0107), for the emitted types -/
+
+/-- structs: the declaration carries `<T>` exactly when one of its printed field types mentions `T` -/
+theorem C07_struct_param_declared_iff_used (items : List Item) (a : Ast) (ha : Ast.ofItems items = .ok a)
+    (hnd : (gnames (items.filterMap gitemOf)).Nodup) (s : Struct) (hs : Item.struct s ∈ items)
+    (g : Bool) (fs : List (String × TyExpr)) (h : emitTypeDecl a (.struct s) = some (.struct s.name g fs)) :
+    g = fs.any (·.2.usesT) := by
+  simp only [emitTypeDecl, Option.some.injEq, TypeDecl.struct.injEq, true_and] at h
+  obtain ⟨hg, hfs⟩ := h
+  rw [← hg, ← hfs, C13.C13_struct_param_iff_used items a ha hnd s hs]
+  simp [List.any_map, Function.comp_def]
+
+theorem flatten_any_arms (a : Ast) : ∀ (cs : List UnionCase), (∀ c ∈ cs, c.caseValues ≠ []) →
+    ((cs.map fun c => c.caseValues.map fun l => (l, some (armTy a c.fieldValue))).flatten.any
+      fun (v : String × Option TyExpr) => match v.2 with | some t => t.usesT | none => false) = cs.any fun c => (armTy a c.fieldValue).usesT := by
+  intro cs
+  induction cs with
+  | nil => intro _; rfl
+  | cons c rest ih =>
+    intro hne
+    have hc := hne c List.mem_cons_self
+    simp only [List.map_cons, List.flatten_cons, List.any_append, List.any_cons, List.any_map, Function.comp_def]
+    rw [ih (fun c' hc' => hne c' (List.mem_cons_of_mem _ hc'))]
+    congr 1
+    cases hcv : c.caseValues with
+    | nil => exact absurd hcv hc
+    | cons l ls => cases (armTy a c.fieldValue).usesT <;> simp
+
+/-- unions: `<T>` exactly when the payload type of some variant (the default's included) mentions `T` -/
+theorem C07_union_param_declared_iff_used (items : List Item) (a : Ast) (ha : Ast.ofItems items = .ok a)
+    (hnd : (gnames (items.filterMap gitemOf)).Nodup) (u : Union) (hu : Item.union u ∈ items)
+    (hne : ∀ c ∈ u.cases, c.caseValues ≠ [])
+    (g : Bool) (vs : List (String × Option TyExpr)) (h : emitTypeDecl a (.union u) = some (.union u.name g vs)) :
+    g = vs.any (fun v => match v.2 with | some t => t.usesT | none => false) := by
+  simp only [emitTypeDecl, Option.some.injEq, TypeDecl.union.injEq, true_and] at h
+  obtain ⟨hg, hvs⟩ := h
+  rw [← hg, ← hvs, C13.C13_union_param_iff_used items a ha hnd u hu]
+  simp only [List.any_append, flatten_any_arms a u.cases hne, List.any_map, Function.comp_def]
+  have hv : (u.voidCases.any fun _ => false) = false := by
+    induction u.voidCases with
+    | nil => rfl
+    | cons x xs ih => simp [ih]
+  cases u.default with
+  | none => simp [hv]
+  | some d => simp [hv]
 
 end Fx.C07
